@@ -177,7 +177,10 @@ func (q ChannelQueue[T]) Offer(val T) error {
 // Poll Poll the T val(non-blocking)
 func (q ChannelQueue[T]) Poll() (T, error) {
 	select {
-	case val := <-q:
+	case val, ok := <-q:
+		if !ok {
+			return *new(T), ErrQueueIsClosed
+		}
 		return val, nil
 	default:
 		return *new(T), ErrQueueIsEmpty
